@@ -162,7 +162,7 @@ fn apply(ctx: &mut Ctx, pem: &str, cert: &str, fault: FileFault) -> Option<Vec<u
     })
 }
 
-fn strip_ansi(s: &str) -> String {
+pub fn strip_ansi(s: &str) -> String {
     let mut out = String::with_capacity(s.len());
     let mut it = s.chars().peekable();
     while let Some(c) = it.next() {
